@@ -239,8 +239,10 @@ class PixCoord:
         coord : `PixCoord`
             The rotated coordinates (which is an independent copy).
         """
-        dx = self.x - center.x
-        dy = self.y - center.y
+        # differences are formed in floating point: integer (in particular
+        # unsigned or narrow) coordinate arrays would wrap around
+        dx = np.asarray(self.x, dtype=float) - center.x
+        dy = np.asarray(self.y, dtype=float) - center.y
         vec = np.array([dx, dy])
 
         cosa, sina = np.cos(angle), np.sin(angle)
